@@ -110,7 +110,37 @@ ByJoins == UNION { { <<B, LB, Star, RB, Dot, LB>> \o LetOf(<<VO, AssignT, CurT>>
                      <<B, LB, Star, RB, Dot, LB>> \o LetOf(<<VO, AssignT, CurT, Comma, VN2, AssignT, Json(<<96,48,96>>)>>, LetOf(<<VN2, AssignT>> \o f, <<VN2>>)) \o <<RB>> }
                    : f \in ByForms }
 
-Exprs == { LetOf(bs, b) : bs \in Binds, b \in Body0 } \cup BigLets \cup Joins \cup ByJoins
+\* Every way in which a binding can READ ITS CONTEXT, as the only context-reader of a let that is evaluated once
+\* per element of an iteration (C19: "evaluated ... in the context and scope where the let stands"): a binding
+\* that looks constant to an implementation, because the leaf through which it reads the current node was
+\* overlooked, keeps the value of the first element
+Fn1(name, args) == <<Id(name), LP>> \o args \o <<RP>>
+Readers == { <<CurT>>, <<A>>, <<LB, IntT(<<48>>), RB>>, <<LB, IntT(<<45,49>>), RB>>, <<LB, Star, RB>>, <<Flat>>, <<LB, Colon, IntT(<<49>>), RB>>,
+             <<LB, Colon, Colon, IntT(<<45,49>>), RB>>, <<Filt, CurT, RB>>, <<Star>>, Fn1(<<116,121,112,101>>, <<CurT>>), Fn1(<<116,111,95,97,114,114,97,121>>, <<CurT>>),
+             Fn1(<<108,101,110,103,116,104>>, <<Flat>>), Fn1(<<116,111,95,97,114,114,97,121>>, <<Flat>>), <<Flat, OrT, Json(<<96,49,96>>)>>, <<LBr, Id(<<107>>), Colon, Flat, RBr>>,
+             <<LB, Flat, RB>>, <<Flat, Flat>>, <<LB, Star, RB, LB, IntT(<<48>>), RB>>, <<Flat, LB, IntT(<<48>>), RB>>, Fn1(<<110,111,116,95,110,117,108,108>>, <<Flat>>),
+             <<LB, LB, IntT(<<48>>), RB, Comma, LB, IntT(<<45,49>>), RB, RB>>, <<LBr, Id(<<107>>), Colon, LB, Star, RB, RBr>>,
+             Fn1(<<108,101,110,103,116,104>>, <<LB, Star, RB>>), Fn1(<<116,121,112,101>>, <<Star>>), <<Star, Flat>>, <<LB, Star, RB, Flat>>, <<CurT, EqT, Json(<<96,91,49,93,96>>)>>, <<NotT, Flat>> }
+ReadLet(r) == LetOf(<<VX, AssignT>> \o r, <<VX>>)
+PerElement(l) == { <<B, LB, Star, RB, Dot, LB>> \o l \o <<RB>>,
+                   <<B, LB, Star, RB, Dot, LBr, Id(<<107>>), Colon>> \o l \o <<RBr>>,
+                   <<Id(<<109,97,112>>), LP, AmpT, LP>> \o l \o <<RP, Comma, B, RP>>,
+                   <<B, Flat, Dot, LB>> \o l \o <<RB>>,
+                   <<B, Filt>> \o l \o <<RB>>,
+                   <<LB, B, LB, IntT(<<48>>), RB, PipeT, LP>> \o l \o <<RP, Comma, B, LB, IntT(<<45,49>>), RB, PipeT, LP>> \o l \o <<RP, RB>> }
+ReadExprs == UNION { PerElement(ReadLet(r)) : r \in Readers }
+\* Sibling bindings that refer to a name bound ONLY by a sibling -- unbound, or bound two lets further out --
+\* under a parent let that binds other names (bindings of one let do not see each other, whatever encloses it)
+VZ == VarT(<<36,122>>)
+SibInner == { <<VZ, AssignT, Json(<<96,57,96>>), Comma, VY, AssignT, VZ>>, <<VY, AssignT, VZ, Comma, VZ, AssignT, Json(<<96,57,96>>)>>,
+              <<VZ, AssignT, B, Comma, VY, AssignT, VZ, Comma, VX, AssignT, VY>> }
+SibBodies == { <<VY>>, <<LB, VX, Comma, VY, Comma, VZ, RB>>, <<VZ>> }
+SibExprs == UNION { { LetOf(<<VX, AssignT, A>>, LetOf(ib, bd)),
+                      LetOf(<<VZ, AssignT, Json(<<96,49,96>>)>>, LetOf(<<VX, AssignT, A>>, LetOf(ib, bd))),
+                      LetOf(<<VZ, AssignT, Json(<<96,49,96>>)>>, <<LB>> \o LetOf(<<VX, AssignT, A>>, LetOf(ib, bd)) \o <<Comma, VZ, RB>>),
+                      <<B, LB, Star, RB, Dot, LB>> \o LetOf(<<VX, AssignT, CurT>>, LetOf(ib, bd)) \o <<RB>> } : ib \in SibInner, bd \in SibBodies }
+
+Exprs == { LetOf(bs, b) : bs \in Binds, b \in Body0 } \cup BigLets \cup Joins \cup ByJoins \cup ReadExprs \cup SibExprs
          \cup (IF Depth >= 2 THEN { LetOf(bs, b) : bs \in Binds, b \in Body1 } ELSE {})
          \cup (IF Depth >= 3 THEN { LetOf(bs, b) : bs \in {<<VX, AssignT, A>>, <<VY, AssignT, B, Comma, VX, AssignT, Json(<<96,49,96>>)>>, <<VX, AssignT, Json(<<96,110,117,108,108,96>>)>>}, b \in Body2 } ELSE {})
          \cup Body0                                              \* no enclosing binding: undefined variable
